@@ -287,6 +287,12 @@ func glueTransformCase(r *Rng, st *Stats, src string, d *dom, o glueOpts, scenar
 					}
 				}
 			}
+			if scenario == "" && len(o.engines) > 0 && o.engines[0].Version != "100" && strings.Contains(fmt.Sprint(vars), "nesting") && !strings.Contains(out, ":is(") {
+				// known limitation: for engines without :is() a multi-selector parent is
+				// expanded into the cross product, which gives every branch its own
+				// specificity instead of the maximum that "&" has
+				scenario = "nesting-expansion-without-is-changes-specificity"
+			}
 			if scenario == "" && nestingLowered(o) && strings.Contains(out, ":is(") {
 				// known limitation: the parent selector list is wrapped in the forgiving
 				// :is(), so a parent selector this browser cannot parse no longer
@@ -495,6 +501,7 @@ func glueCorpus(r *Rng, st *Stats) {
 		{"a{width:1.5e10px;order:1.0e10;height:1.50e2px;z-index:10.0e0}", min, "mangle-number-strips-exponent-zeros"},
 		{"b{inset:1px 2px 3px 4px} b.c2{inset:var(--v) 0 0 0}", noInset, "inset-lowering-skips-unsplittable-value"},
 		{"*, a:-moz-foo { color: red !important; > b { color: blue } }", noNest, "nesting-lowering-wraps-parent-in-forgiving-is"},
+		{"div, #i9 { > a { color: red } } div > a.c1 { color: blue }", glueOpts{loader: api.LoaderCSS, engines: []api.Engine{{Name: api.EngineChrome, Version: "60"}}, desc: "loader=css target=chrome60"}, "nesting-expansion-without-is-changes-specificity"},
 		{"a{margin:1px;margin-left:2px;margin-top:1vw;margin-left:3px} b{padding:1em 9px;padding-left:0;padding-bottom:1vw;padding-left:1em}", min, ""},
 		{"a{border-radius:1px;border-top-left-radius:2px;border-top-right-radius:1vw;border-top-left-radius:3px}", min, ""},
 		{"a{bottom:3px;inset:2vw 1em 10% 0px;bottom:1vw}", glueOpts{loader: api.LoaderCSS, engines: []api.Engine{{Name: api.EngineFirefox, Version: "65"}}, desc: "loader=css target=firefox65"}, "inset-lowering-splits-value-invalidation"},
